@@ -122,6 +122,11 @@ class _FuncTaint:
         self.params = [x.arg for x in a.posonlyargs + a.args + a.kwonlyargs] + ([a.vararg.arg] if a.vararg else []) + ([a.kwarg.arg] if a.kwarg else [])
         self.note: dict[str, str] = {}
         self.overrides: list[dict] = []
+        from ..webs import compute_webs
+        self.web = compute_webs(fi.node)          # id(Name node) -> def-use web name (flow sensitivity for locals)
+
+    def vn(self, n: ast.Name) -> str:
+        return self.web.get(id(n), n.id)
 
     def run(self) -> None:
         for p in self.params:
@@ -221,8 +226,9 @@ class _FuncTaint:
             for ov in reversed(self.overrides):
                 if e.id in ov:
                     return ov[e.id]
-            if e.id in self.B:
-                return True, self.note.get(e.id, f"`{e.id}`")
+            v = self.vn(e)
+            if v in self.B:
+                return True, self.note.get(v, f"`{e.id}`")
             return False, ""
         if isinstance(e, ast.Attribute):
             ch = attr_chain(e)
@@ -404,7 +410,7 @@ class _FuncTaint:
     def root_name(self, e: ast.AST) -> str | None:
         while isinstance(e, (ast.Attribute, ast.Subscript)):
             e = e.value
-        return e.id if isinstance(e, ast.Name) else None
+        return self.vn(e) if isinstance(e, ast.Name) else None
 
     def flow_into(self, target: ast.AST, value: ast.AST | None, vt: tuple[bool, str] | None = None) -> None:
         t, why = vt if vt is not None else self.T(value)
@@ -412,7 +418,7 @@ class _FuncTaint:
             return
         if isinstance(target, ast.Name):
             if not self.e.node_scalar(target):
-                self.mark(target.id, why)
+                self.mark(self.vn(target), why)
         elif isinstance(target, (ast.Tuple, ast.List)):
             for x in target.elts:
                 self.flow_into(x, None, (t, why))
@@ -420,7 +426,7 @@ class _FuncTaint:
             self.flow_into(target.value, None, (t, why))
         elif isinstance(target, (ast.Attribute, ast.Subscript)):
             r = self.root_name(target)
-            if r is not None and r != "self":
+            if r is not None and r.split("#")[0] != "self":
                 self.mark(r, f"stores {why}")
 
     def visit(self, n: ast.AST) -> None:
